@@ -202,7 +202,9 @@ func checkFieldAssignment(
 
 	typeName := named.Obj().Name()
 	pkg := named.Obj().Pkg()
-	if pkg == nil {
+	// only package-level types carry annotations: a function-local type that merely
+	// shares the name of an annotated type is a different type
+	if pkg == nil || (named.Obj().Parent() != nil && named.Obj().Parent() != pkg.Scope()) {
 		return nil
 	}
 
@@ -257,7 +259,9 @@ func checkIndexAssignment(
 
 	typeName := named.Obj().Name()
 	pkg := named.Obj().Pkg()
-	if pkg == nil {
+	// only package-level types carry annotations: a function-local type that merely
+	// shares the name of an annotated type is a different type
+	if pkg == nil || (named.Obj().Parent() != nil && named.Obj().Parent() != pkg.Scope()) {
 		return nil
 	}
 
@@ -335,7 +339,9 @@ func checkFieldIncDec(
 
 	typeName := named.Obj().Name()
 	pkg := named.Obj().Pkg()
-	if pkg == nil {
+	// only package-level types carry annotations: a function-local type that merely
+	// shares the name of an annotated type is a different type
+	if pkg == nil || (named.Obj().Parent() != nil && named.Obj().Parent() != pkg.Scope()) {
 		return nil
 	}
 
@@ -457,7 +463,9 @@ func checkCompoundLHS(
 
 	typeName := named.Obj().Name()
 	pkg := named.Obj().Pkg()
-	if pkg == nil {
+	// only package-level types carry annotations: a function-local type that merely
+	// shares the name of an annotated type is a different type
+	if pkg == nil || (named.Obj().Parent() != nil && named.Obj().Parent() != pkg.Scope()) {
 		return nil
 	}
 
